@@ -615,6 +615,13 @@ int eng_conn(FILE *in, FILE *out)
             hbuf_free(&b);
         } else if (n == 1 && !strcmp(tok[0], "udisc")) {
             xmpp_disconnect(g_conn);
+        } else if (n == 1 && !strcmp(tok[0], "utls")) {
+            /* the public xmpp_conn_tls_start() (meant for raw connections); the application only
+             * calls it on a live connection without a TLS session */
+            if (g_conn->state != XMPP_STATE_CONNECTED || g_conn->tls)
+                snprintf(res, sizeof(res), "rc skipped");
+            else
+                snprintf(res, sizeof(res), "rc %d", xmpp_conn_tls_start(g_conn));
         } else if (n == 2 && !strcmp(tok[0], "setflags")) {
             int rc = xmpp_conn_set_flags(g_conn, atol(tok[1]));
             snprintf(res, sizeof(res), "rc %d flags %ld", rc, xmpp_conn_get_flags(g_conn));
